@@ -17,7 +17,7 @@ type tokCtx struct {
 	load           bool // the tokens are the only file of package main, loaded with Load
 }
 
-func nm(s string) string { return "(name)\x1f" + s }
+func nm(s string) string   { return "(name)\x1f" + s }
 func str_(s string) string { return "(string)\x1f" + s }
 
 var tokContexts = []tokCtx{
